@@ -321,7 +321,7 @@ func aggregateRows(selectList sql.SelectList, groupBy []sql.ColumnReference, row
 		var key string
 		for _, groupByCol := range groupBy {
 			idx := colToIdx[groupByCol]
-			key += fmt.Sprintf("%v", row.Vals[idx])
+			key += fmt.Sprintf("%#v,", row.Vals[idx])
 		}
 		return key
 	}
